@@ -67,6 +67,9 @@ struct Cfg {
   // 'output sources: true' for the distributions that keep a source log
   // (UniformRandom, DiscPatch, Caproni): extra bookkeeping in the dump
   bool source_log = false;
+  // --task-plot-rhd N: the photon tasks of the first N steps are kept (not
+  // given back) and written to tasks_NN.txt at the end of the step
+  int task_plot_rhd = 0;
   int live_mask = 7; // which live outputs are switched on
   int source_type = 0; // 0 SingleStar, 1 AsciiFile, 2 UniformRandom, 3 SingleSupernova, 4 DiscPatch, 5 Caproni (positions on galactic scales: only without radiation)
   bool feedback = false;
@@ -145,6 +148,7 @@ struct Cfg {
     j["restart_midway"] = restart_midway;
     j["restart_threads"] = restart_threads;
     j["source_log"] = source_log;
+    j["task_plot_rhd"] = task_plot_rhd;
     j["live_mask"] = live_mask;
     j["source_type"] = source_type;
     j["feedback"] = feedback;
@@ -216,6 +220,7 @@ struct Cfg {
     c.restart_midway = j.at("restart_midway").as_bool();
     c.restart_threads = (int)j.at("restart_threads").as_int(0);
     c.source_log = j.at("source_log").as_bool();
+    c.task_plot_rhd = (int)j.at("task_plot_rhd").as_int(0);
     c.live_mask = (int)j.at("live_mask").as_int(7);
     c.source_type = (int)j.at("source_type").as_int(0);
     c.feedback = j.at("feedback").as_bool();
@@ -408,7 +413,11 @@ struct Cfg {
                        : packets + 27 * total_subgrids() * (4 << copy_level) + 64)
       << "\n";
     o << "  number of tasks: "
-      << (ntasks > 0 ? ntasks : 18 * total_subgrids() + 6 * packets + 2000)
+      << (ntasks > 0 ? ntasks
+                     : 18 * total_subgrids() + 6 * packets + 2000 +
+                           (task_plot_rhd > 0
+                                ? 60 * packets + 100 * total_subgrids() + 3000
+                                : 0))
       << "\n";
     o << "  queue size per thread: " << 18 * total_subgrids() + 6 * packets + 2000
       << "\n";
